@@ -7,7 +7,7 @@
 (* for the unbounded domains, and the pair events of the relational        *)
 (* clauses (x,-x), (x, x + k*period), (x, x + delta).                      *)
 (***************************************************************************)
-EXTENDS FxGen, FxFloat
+EXTENDS FxGen, FxFloat, FxLaws
 
 Phi == ZN(205887)
 HalfPhi == ZN(102944)
@@ -180,8 +180,30 @@ Jobs_C16 ==
            Rand(op, <<"fx", "f64">>, NR(3000, 100000), Seed + 220 + o), Rand(op, <<"f64", "fx">>, NR(3000, 100000), Seed + 230 + o),
            [Rand(op, <<"fx", "f32">>, NR(1000, 30000), Seed + 240 + o) EXCEPT !.asg = 1]>>])
 
+(* ---- C17: landmark instances of the laws (FxLaws) as programs --------------------------------------- *)
+LoadJob(r, v) == [k |-> "ins", op |-> "load", t |-> <<"fx">>, a |-> <<Enc(v)>>, d |-> r, s |-> <<0>>, asg |-> 0, via |-> "", ot |-> "fx"]
+InsJob(i) == [k |-> "ins", op |-> i.op, t |-> i.t, a |-> [q \in DOMAIN i.s |-> Enc(i.imm[q])], d |-> i.d, s |-> i.s, asg |-> 0, via |-> "", ot |-> "fx"]
+ProgJobs(name, vals, n) ==
+   LET T == LawTailOf(name, 1, 2, 3, 4, n) IN
+   <<[k |-> "begin", prog |-> name, id |-> 0, regs |-> <<1, 2, 3>>, f |-> 4, n |-> Enc(n)]>>
+   \o [i \in 1..3 |-> LoadJob(i, vals[i])] \o [i \in 1..Len(T) |-> InsJob(T[i])] \o <<[k |-> "end"]>>
+LawLm1 == {x \in LmFinite : TRUE}
+ISq == ZISqrt(P(63))
+LawLm2 == PM({Z0, Z1, OneFx, ZN(98304), P(31), P(46), DomLim -- Z1, DomLim, P(62), Maxv, Maxv -- OneFx, Maxv -- Z1, ISq})
+LawLm3 == PM({Z0, Z1, OneFx, P(46), P(62), Maxv, Maxv -- OneFx})
+LawNs == {ZN(k) : k \in {1, 2, 3, 7, 10, 64, -1, -2, -3, -64, 65536, -65536, 2147483647, -2147483647}} \cup {P(40), ZNeg(P(40)), P(62)}
+SumNs == {ZN(k) : k \in (1..12) \cup {33, 64}}
+Cat(S) == FlatSeq(S2Q(S))
+Jobs_C17 ==
+   Cat({ProgJobs(nm, <<a, Z0, Z0>>, Z0) : nm \in {"sub_self", "mul_one", "mul_zero", "div_one", "div_self"}, a \in LawLm1})
+   \o Cat({ProgJobs(nm, <<a, b, Z0>>, Z0) : nm \in {"add_comm", "mul_comm", "sub_neg", "add_sub_cancel"}, a \in LawLm2, b \in LawLm2})
+   \o Cat(UNION {{ProgJobs(nm, <<a, b, Z0>>, Z0) : nm \in {"add_comm", "sub_neg", "add_sub_cancel"}, b \in SolveAdd(a) \cup SolveSub(a)} : a \in LawLm3})
+   \o Cat({ProgJobs(nm, <<a, b, c>>, Z0) : nm \in {"add_assoc", "add_mono"}, a \in LawLm3, b \in LawLm3, c \in LawLm3})
+   \o Cat({ProgJobs("mul_div_n", <<a, Z0, Z0>>, n) : a \in LawLm2, n \in LawNs})
+   \o Cat({ProgJobs("mul_n_sum", <<a, Z0, Z0>>, n) : a \in LawLm2 \cup {Maxv // k : k \in SumNs}, n \in SumNs})
+
 JobsForT(p) ==
    CASE p = "C09" -> Jobs_C09 [] p = "C10" -> Jobs_C10 [] p = "C11" -> Jobs_C11 [] p = "C12" -> Jobs_C12
      [] p = "C14" -> Jobs_C14 [] p = "C19" -> Jobs_C19 [] p = "C20" -> Jobs_C20
-     [] p = "C05" -> Jobs_C05 [] p = "C16" -> Jobs_C16
+     [] p = "C05" -> Jobs_C05 [] p = "C16" -> Jobs_C16 [] p = "C17" -> Jobs_C17
 =============================================================================
